@@ -128,11 +128,29 @@ def _count_aliases(loop):
     return out
 
 
+def _flat_counters(f):
+    """locals holding one counter per (bin, sample) pair - `obs = Counter()` ... `obs[bin_id, sample] += 1` - that are unfolded into the
+    nested result afterwards (`for (b, s), n in obs.items(): counts.setdefault(b, {})[s] = n`)"""
+    out = set()
+    for s_ in walk_no_nested(f):
+        if isinstance(s_, ast.Assign) and len(s_.targets) == 1 and isinstance(s_.targets[0], ast.Name) and isinstance(s_.value, ast.Call) \
+                and (src(s_.value).replace('collections.', '') in ('Counter()', 'defaultdict(int)')):
+            nm = s_.targets[0].id
+            unfolded = any(isinstance(l, ast.For) and src(l.iter) == f'{nm}.items()' and isinstance(l.target, ast.Tuple) and len(l.target.elts) == 2 and isinstance(l.target.elts[0], ast.Tuple)
+                           and any(isinstance(a_, ast.Assign) and src(a_.value) == src(l.target.elts[1]) and 'counts' in src(a_.targets[0]) for a_ in walk_no_nested(l))
+                           for l in walk_no_nested(f))
+            if unfolded:
+                out.add(nm)
+    return out
+
+
 def _is_count_event(a, aliases):
     """the statement adds exactly one to a (bin, sample) counter: `counts[B][S] += 1`, the initialising `counts[B][S] = 1`, or
     `D[S] = D.get(S, 0) + 1` with D the per-bin dictionary"""
     if isinstance(a, ast.AugAssign) and isinstance(a.op, ast.Add) and src(a.value) == '1' and isinstance(a.target, ast.Subscript):
         base = a.target.value
+        if isinstance(base, ast.Name) and ('flat:' + base.id) in aliases:
+            return isinstance(a.target.slice, ast.Tuple) and len(a.target.slice.elts) == 2
         return (isinstance(base, ast.Subscript) and src(base.value) == 'counts') or (isinstance(base, ast.Name) and base.id in aliases)
     if isinstance(a, ast.Assign) and len(a.targets) == 1 and isinstance(a.targets[0], ast.Subscript):
         t = a.targets[0]
@@ -167,7 +185,7 @@ def r3(ctx):
     ctx.emit('C12-R3', ok, BINCOUNTS, tr[0] if tr else loop, 'site is the DS tag of the read (fallback: alignment start)', key='site-provenance', nontrivial=False)
     # exactly one increment per counted read
     cfg = CFG(loop.body, exceptions=False)
-    aliases = _count_aliases(loop)
+    aliases = _count_aliases(loop) | {'flat:' + x for x in _flat_counters(f)}
     bad = []
     n = 0
     for p, _ in cfg.paths():
@@ -313,18 +331,21 @@ def r6(ctx):
         return {'KeyError'} if any(isinstance(n_, ast.Call) and isinstance(n_.func, ast.Attribute) and n_.func.attr == 'get_tag' for n_ in walk_no_nested(tgt)) else set()
     rs = explore(after, lambda e: UNK, may_raise=may_raise, is_subclass=ctx.ix.is_subclass_name)
     ctx.counters['paths_enumerated'] += len(rs)
-    aliases = _count_aliases(loop)
+    aliases = _count_aliases(loop) | _flat_counters(f)
     skipped = [r for r in rs if r['kind'] in ('fall', 'continue', 'break') and not any((t.startswith('counts[') and t.count('[') == 2) or t.split('[')[0] in aliases for t, v, k in r['stores'])]
     ctx.emit('C12-R6', bool(rs) and not skipped, BINCOUNTS, own[0], f'{len(rs)} paths from the ownership test to the end of the iteration (KeyError of get_tag modelled): every one increments a (bin, sample) counter'
              if rs and not skipped else f'a path after the ownership test ends the iteration without counting the read: {skipped[0]["path"][-300:] if skipped else None}',
              key='owned-read-always-counted', what='count_fragments_binned: an owned read is skipped (e.g. because an optional tag is missing)')
     o = ctx.fn(BINCOUNTS, 'obtain_counts')
     whole = [c for c in walk_no_nested(o) if isinstance(c, ast.Call) and isinstance(c.func, ast.Attribute) and c.func.attr == 'update' and src(c.func.value) == 'counts']
-    per_bin = [c for c in walk_no_nested(o) if isinstance(c, ast.Call) and isinstance(c.func, ast.Attribute) and c.func.attr == 'update' and src(c.func.value).startswith('counts[')]
+    bin_aliases = {s_.targets[0].id for s_ in walk_no_nested(o) if isinstance(s_, ast.Assign) and len(s_.targets) == 1 and isinstance(s_.targets[0], ast.Name)
+                   and (src(s_.value).startswith('counts[') or src(s_.value).startswith('counts.setdefault(') or src(s_.value).startswith('counts.get('))}
+    per_bin = [c for c in walk_no_nested(o) if isinstance(c, ast.Call) and isinstance(c.func, ast.Attribute) and c.func.attr == 'update'
+               and (src(c.func.value).startswith('counts[') or src(c.func.value) in bin_aliases or src(c.func.value).startswith('counts.setdefault('))]
     ctx.emit('C12-R6', not whole and bool(per_bin), BINCOUNTS, whole[0] if whole else (per_bin[0] if per_bin else o),
              'obtain_counts merges a job result into an existing bin per sample (counts[bin].update(samples))' if not whole and per_bin else
              'obtain_counts replaces whole bins (counts.update(result)): samples another job reported for the same bin are dropped (several input files share bins)',
-             key='merge-per-bin-and-sample', what='obtain_counts: job results are merged by replacing whole bins')
+             key='merge-per-bin-and-sample', undecided=(not whole and not per_bin), what='obtain_counts: job results are merged by replacing whole bins')
 
 
 META = {
